@@ -4,4 +4,6 @@ def _load(n):
     spec = importlib.util.spec_from_file_location("reg_%s_x" % n, os.path.join(os.path.dirname(os.path.abspath(__file__)), n + ".py"))
     m = importlib.util.module_from_spec(spec); spec.loader.exec_module(m); return m
 HARNESSES = _load("sg_common").sg_harnesses(("SEL_WR",))
+HARNESSES += _load("blk_common").sds_harnesses(("SEL_FLUSH",))
+
 META = {"assumptions": ["E-memfile"], "outside": ["block codecs: see DESIGN"]}
